@@ -304,6 +304,9 @@ pub struct World {
     pub vamms: Vec<Addr>,
     /// externally owned accounts that appear in observations (ids >= 20) plus the owner
     pub accounts: Vec<u32>,
+    /// text of the last failed call's error (empty after a success): only ever used to tell WHICH refusal a
+    /// refused call met where a property speaks about one particular refusal
+    pub last_err: String,
 }
 
 fn c_cw20() -> Box<dyn Contract<Empty>> {
@@ -421,7 +424,7 @@ impl World {
         }
         let mut accts = vec![ID_OWNER];
         accts.extend_from_slice(accounts);
-        World { app, d: d.clone(), engine, ifund, feepool, feed, token, vamms, accounts: accts }
+        World { app, d: d.clone(), engine, ifund, feepool, feed, token, vamms, accounts: accts, last_err: String::new() }
     }
 
     pub fn deploy_lines(&self) -> Vec<String> {
@@ -443,6 +446,7 @@ impl World {
             app.execute(sender, CosmosMsg::Wasm(WasmMsg::Execute { contract_addr: contract.to_string(), msg, funds }))
         }));
         if let (Ok(Err(e)), true) = (&r, std::env::var("VERIF_DEBUG").is_ok()) { eprintln!("err: {}", format!("{:?}", e).replace("\n", " ")); }
+        self.last_err = match &r { Ok(Err(e)) => format!("{:?}", e), Err(_) => "panic".to_string(), _ => String::new() };
         matches!(r, Ok(Ok(_)))
     }
 
@@ -796,7 +800,8 @@ impl World {
         let d = c.decimals.u128();
         let l = c.fluctuation_limit_ratio.u128();
         let r = s.quote_asset_reserve.u128().checked_mul(d)? / s.base_asset_reserve.u128();
-        Some((r.checked_mul(d - l)? / d, r.checked_mul(d + l)? / d))
+        // (a stored limit above one - which only a broken validation lets through - gives a band from zero)
+        Some((r.checked_mul(d.saturating_sub(l))? / d, r.checked_mul(d.checked_add(l)?)? / d))
     }
 
     /// full raw storage of every contract plus every observed balance: used by the C08 monitor
